@@ -305,6 +305,124 @@ def check_world(prop, tier, seed, replay=None):
     return 1 if violations else 0
 
 
+PURE = {}
+
+
+def pure(prop):
+    def deco(f):
+        PURE[prop] = f
+        return f
+    return deco
+
+
+def check_pure(prop, tier, seed, replay, harness, mode, gen_lines, rule, assumptions, std='c++17', nontrivial=None,
+               post=None, extra_trusted=None):
+    """properties decided by a pure function: one input line -> one output line on both sides."""
+    t0 = time.time()
+    violations = []
+    notes = []
+    try:
+        tmodel = vlib.build_lean()
+    except vlib.BuildError as e:
+        path = vlib.write_replay(prop, tier, seed, 'lean-build', ['verdict tie-broken', 'broken lake build'], str(e).split('\n'))
+        print('VIOLATION property=%s replay=%s no-failing-input-found' % (prop, path))
+        return 1
+    audit = vlib.lean_audit(prop)
+    if audit['problems'] or audit['discharged'] != audit['obligations']:
+        path = vlib.write_replay(prop, tier, seed, 'lean-audit', ['verdict tie-broken', 'broken proof audit'], audit['problems'])
+        violations.append((path, True))
+    if tier == 'thorough' and audit['obligations']:
+        ok, out = vlib.leanchecker(prop)
+        notes.append('leanchecker TrompModel.Props.%s: %s' % (prop, 'ok' if ok else 'FAILED'))
+        if not ok:
+            path = vlib.write_replay(prop, tier, seed, 'leanchecker', ['verdict tie-broken', 'broken leanchecker'], out.split('\n'))
+            violations.append((path, True))
+    try:
+        hx = vlib.build_simple_harness(harness, std=std)
+    except vlib.BuildError as e:
+        path = vlib.write_replay(prop, tier, seed, 'harness-build',
+                                 ['verdict tie-broken', 'broken correspondence h_%s (does not compile against /repo)' % harness],
+                                 str(e).split('\n'))
+        print('VIOLATION property=%s replay=%s no-failing-input-found' % (prop, path))
+        return 1
+    if replay:
+        lines = [l.rstrip('\n') for l in open(replay) if l.strip() and not l.startswith('#')]
+    else:
+        rng = random.Random('%s-%s' % (seed, prop))
+        lines = []
+        for name, ls in load_corpus(prop):
+            lines.extend(ls)
+        lines.extend(gen_lines(tier, rng))
+    t1 = time.time()
+    mo, merr = vlib.run_lines([tmodel, mode], lines)
+    io, ierr = vlib.run_lines([hx], lines)
+    log('[%s] %d inputs, both sides run in %.1fs' % (prop, len(lines), time.time() - t1))
+    bad = []
+    hist = collections.Counter()
+    distinct = set()
+    for l, a, b in zip(lines, io, mo):
+        if b in ('parse-error',):
+            notes.append('model rejected generated line: ' + l)
+            continue
+        hist[b if len(b) < 12 else 'other'] += 1
+        if nontrivial is None or nontrivial(l, b):
+            distinct.add(l)
+        ok = (a == b) if post is None else post(l, a, b)
+        if not ok:
+            bad.append((l, a, b))
+    if replay:
+        for l, a, b in zip(lines, io, mo):
+            print('%s\n    impl : %s\n    model: %s%s' % (l, a, b, '' if a == b else '   <<< differs'))
+        if bad:
+            print('VIOLATION property=%s replay=%s' % (prop, replay))
+            return 1
+        print('no disagreement')
+        return 0
+    for i, (l, a, b) in enumerate(bad[:3]):
+        path = vlib.write_replay(prop, tier, seed, 'p%d' % i,
+                                 ['verdict violation', 'protocol %s-1' % harness,
+                                  'oracle: the model output is the only conforming output (theorems in Props/%s.lean)' % prop,
+                                  'impl : ' + a, 'model: ' + b], [l])
+        violations.append((path, False))
+    for l, e in ierr[:2]:
+        if not any(l == x[0] for x in bad[:3]):
+            path = vlib.write_replay(prop, tier, seed, 'crash', ['verdict violation', 'implementation crashed: ' + e], [l])
+            violations.append((path, False))
+    wall = time.time() - t0
+    cov = dict(
+        obligations=audit['obligations'], discharged=audit['discharged'],
+        checker_cmd='cd lean && lake build && lake env lean .lake/audit_%s.lean  (#print axioms of every theorem of Props/%s.lean)%s'
+                    % (prop, prop, '; lake env leanchecker TrompModel.Props.%s' % prop if tier == 'thorough' else ''),
+        trusted_base=TRUSTED_BASE + (extra_trusted or []),
+        theorems=[dict(name=n, axioms=a) for n, a in audit['theorems']],
+        programs=len(lines), traces_validated_against_impl=len(lines) - len(bad), disagreements_checked=len(bad),
+        evaluations=len(lines), distinct_nontrivial=len(distinct), rule=rule,
+        samples=[lines[i] for i in ([0, len(lines) // 3, len(lines) // 2, len(lines) - 1] if lines else [])],
+        exhaustive=False, outcome_histogram=dict(hist), notes=notes[:20], harness_tree=vlib.repo_hash(),
+    )
+    vlib.write_evidence(prop, tier, seed, 'proof', cov, assumptions, wall, len(violations))
+    for path, nf in violations:
+        print('VIOLATION property=%s replay=%s%s' % (prop, path, ' no-failing-input-found' if nf else ''))
+    log('[%s] %s: %d inputs, %d disagreements, %.0fs' % (prop, tier, len(lines), len(bad), wall))
+    return 1 if violations else 0
+
+
+@pure('C11')
+def check_c11(tier, seed, replay):
+    import rangegen
+    return check_pure(
+        'C11', tier, seed, replay, 'range', 'range', rangegen.gen,
+        rule='exhaustive: every range over {0,1,2} up to length 4 (quick) / 5 (thorough) x every value-element list up to '
+             'length 3 / 4 x {range_is, starts_with, ends_with, includes, is_permutation} x variadic and container flavours '
+             '(vector, list, deque, std::array, C array); homogeneous vectors of real eq/ne/lt/gt matchers; sampled mixed '
+             'value/matcher lists incl. overlapping ones; all/any/none over every range. distinct = distinct input lines; '
+             'non-trivial = the range or the element list is non-empty',
+        assumptions=['element type int; other element types go through the same templates'],
+        nontrivial=lambda l, b: not l.endswith(' R') or ' E R' not in l,
+        extra_trusted=['std::equal / std::mismatch / std::find_if / std::all_of of libstdc++ are modelled by their '
+                       'specification (Model/Range.lean equal4, mismatch, findIdx?, all)'])
+
+
 def main():
     ap = argparse.ArgumentParser()
     ap.add_argument('prop')
@@ -314,6 +432,8 @@ def main():
     seed = os.environ.get('VERIF_SEED', '1')
     if a.prop in WORLD:
         return check_world(a.prop, a.tier, seed, a.replay)
+    if a.prop in PURE:
+        return PURE[a.prop](a.tier, seed, a.replay)
     print('unknown property', a.prop)
     return 2
 
